@@ -716,6 +716,20 @@ pub fn walk_file<E: EndianParse>(data: &[u8], sink: &mut Sink) {
         }
     }
     sink.end(Kind::Linear);
+    // queries built from the string literals of the crate's own code plus common tails
+    for lit in crate::abi_table::SRC_STRINGS.iter().take(24) {
+        for tail in ["", "info", "x"] {
+            let mut q = StackBuf { buf: [0; 200], len: 0 };
+            let _ = q.write_str(lit);
+            let _ = q.write_str(tail);
+            if let Ok(name) = core::str::from_utf8(&q.buf[..q.len]) {
+                sink.begin("section_header_by_name", Kind::Linear);
+                let r = file.section_header_by_name(name);
+                sink.res(&r);
+                sink.end(Kind::Linear);
+            }
+        }
+    }
     let long_names = LONG_LENS.map(|n| core::str::from_utf8(long_name(n)).unwrap_or(""));
     for name in [".symtab", ".dynsym", ".note.gnu.build-id", "", ".shstrtab", "\u{e9}", ".text"].iter().chain(long_names.iter()) {
         sink.begin("section_header_by_name", Kind::Linear);
